@@ -130,6 +130,10 @@ package graphql
 //@   at[C20] call resolvePlannedField: assert arg4 != nil && arg4.Prev == path && typeis(arg4.Key, "string") && strval(arg4.Key) == fp.responseKey
 //@   at[C01] call resolvePlannedField: assert fp.fieldDef != nil
 
+//@ func Schema.PossibleTypes
+//@   trusted
+//@   assigns nothing
+
 //@ func completePlannedListValue
 //@   assigns class:executionContext.Errors, class:FormattedError, class:fieldPlan.abstractAlternatives, class:M|*graphql.Object|*graphql.selectionPlan
 //@   props C20 C18 C04
@@ -137,6 +141,7 @@ package graphql
 //@   requires eCtx != nil && returnType != nil
 //@   at[C20,C18] call completePlannedValueCatchingError: assert arg4 != nil && arg4.Prev == path && typeis(arg4.Key, "int") && intval(arg4.Key) == i
 //@   at[C20] call completePlannedValueCatchingError: assert arg0 == eCtx && arg1 == returnType.OfType && arg2 == fp
+//@   loop 1 invariant fresh(completedResults)
 
 //@ func completePlannedObjectValue
 //@   assigns class:executionContext.Errors, class:FormattedError, class:fieldPlan.abstractAlternatives, class:M|*graphql.Object|*graphql.selectionPlan
